@@ -17,23 +17,23 @@ import (
 )
 
 type RunSpec struct {
-	Pkg         string `json:"pkg"`
-	Func        string `json:"func"`
-	Unwind      int    `json:"unwind"`
-	MaxPaths    int    `json:"max_paths"`
-	MaxWallS    int    `json:"max_wall_s"`
-	MaxSteps    int    `json:"max_steps"`
-	MapOrderAll *bool  `json:"map_order_all"`
-	SymbolicNow bool   `json:"symbolic_now"`
-	AllowPanic  bool   `json:"allow_panic"`
-	Preempt     int    `json:"preempt"`
-	TimeoutMs   int    `json:"timeout_ms"`
-	CoverModels bool   `json:"cover_models"`
-	DumpSMT     string `json:"dump_smt"`
-	Solver      string `json:"solver"`
-	AbstractTime bool  `json:"abstract_time"`
-	NoPreempt   bool   `json:"no_preempt"`
-	DebugPrefix []int  `json:"debug_prefix"`
+	Pkg          string `json:"pkg"`
+	Func         string `json:"func"`
+	Unwind       int    `json:"unwind"`
+	MaxPaths     int    `json:"max_paths"`
+	MaxWallS     int    `json:"max_wall_s"`
+	MaxSteps     int    `json:"max_steps"`
+	MapOrderAll  *bool  `json:"map_order_all"`
+	SymbolicNow  bool   `json:"symbolic_now"`
+	AllowPanic   bool   `json:"allow_panic"`
+	Preempt      int    `json:"preempt"`
+	TimeoutMs    int    `json:"timeout_ms"`
+	CoverModels  bool   `json:"cover_models"`
+	DumpSMT      string `json:"dump_smt"`
+	Solver       string `json:"solver"`
+	AbstractTime bool   `json:"abstract_time"`
+	NoPreempt    bool   `json:"no_preempt"`
+	DebugPrefix  []int  `json:"debug_prefix"`
 }
 
 type Spec struct {
